@@ -47,6 +47,13 @@ def make_system(tag, names=None):
         return CompositeSystem([ElementalSystem((names or [0])[0], mb.get_normalized_hermitian_basis(2))])
     if tag == "Q3h":
         return CompositeSystem([ElementalSystem((names or [0])[0], mb.get_normalized_hermitian_basis(3))])
+    if tag == "Q1r":
+        # identity first, then the Pauli matrices conjugated by a generic unitary: orthonormal Hermitian, transition matrix from the
+        # Pauli basis is a generic (non-symmetric) rotation
+        from mc import refmodel as _R
+        P = [np.array(x, dtype=np.complex128) for x in mb.get_normalized_pauli_basis()]
+        U = _R.generic_unitary(2, 0, salt=9)
+        return CompositeSystem([ElementalSystem((names or [0])[0], mb.MatrixBasis([P[0]] + [U @ x @ U.conj().T for x in P[1:]]))])
     if tag == "Q1x":
         # normalised Pauli basis with X FIRST: orthonormal Hermitian, first element has a constant (zero) diagonal but is not ~ identity
         P = mb.get_normalized_pauli_basis()
@@ -65,7 +72,7 @@ def make_system(tag, names=None):
 
 
 def dim_of(tag):
-    return {"Q1": 2, "Q3": 3, "Q3g": 3, "Q2": 4, "Q6": 6, "Q1u": 2, "Q1h": 2, "Q3h": 3, "Q1c": 2, "Q1x": 2, "Q3x": 3}[tag]
+    return {"Q1": 2, "Q3": 3, "Q3g": 3, "Q2": 4, "Q6": 6, "Q1u": 2, "Q1h": 2, "Q3h": 3, "Q1c": 2, "Q1x": 2, "Q3x": 3, "Q1r": 2}[tag]
 
 
 # ---------------------------------------------------------------- spectra / hermitian alphabet
